@@ -296,4 +296,129 @@ Proof.
       rel10 ltac:(exact Hhost') ltac:(exact Hdelim) ltac:(exact Hhl).
 Qed.
 
+
+Definition erase (r : result) : option nat := match r with Accept n _ => Some n | _ => None end.
+(* neither Panic nor OutOfFuel, and an accepted pattern reports endHost *)
+Definition good (eh : nat) (r : result) : Prop :=
+  match r with Accept _ e => e = eh | Reject _ => True | Panic | OutOfFuel => False end.
+
+Lemma index_byte_lt c s n : index_byte c s = Some n -> n < length s.
+Proof. intros H. apply index_byte_spec in H. apply nth_error_Some. destruct H as [-> _]. discriminate. Qed.
+
+Lemma finish_refines url eh pre s hostne host prevc a :
+  Rel url eh pre [] s hostne host prevc a ->
+  good eh (finish url eh s) /\ erase (finish url eh s) = lfinish hostne a.
+Proof.
+  intros [Hurl Heh Hhn Hhost Hprevc Hdelim Habs Hsp Hhl Hnodot].
+  rewrite app_nil_r in Hurl. subst pre.
+  pose proof (index_byte_lt _ _ _ Heh) as Hlt.
+  assert (Hh : host = false) by (rewrite Hhost; apply Nat.leb_gt; exact Hlt).
+  assert (Hlast : exists z, nth_error url (length url - 1) = Some z).
+  { destruct (nth_error url (length url - 1)) eqn:E; [eauto|]. apply nth_error_None in E. lia. }
+  destruct Hlast as [z Hz].
+  assert (Htail : forall s', state s' = state s -> paramCnt s' = paramCnt s ->
+     good eh (match state s' with
+              | StParam => Reject EUnclosedParam
+              | StCatchAll => match nth_error url (length url - 1) with
+                              | None => Panic
+                              | Some c => if Ascii.eqb c "*" then Reject EMissingBrace else Reject EUnclosedCatchAll
+                              end
+              | StDefault => Accept (paramCnt s') eh end) /\
+     erase (match state s' with
+              | StParam => Reject EUnclosedParam
+              | StCatchAll => match nth_error url (length url - 1) with
+                              | None => Panic
+                              | Some c => if Ascii.eqb c "*" then Reject EMissingBrace else Reject EUnclosedCatchAll
+                              end
+              | StDefault => Accept (paramCnt s') eh end) =
+     match state s with StDefault => Some (paramCnt s) | _ => None end).
+  { intros s' -> ->. rewrite Hz. destruct (state s); simpl; auto. destruct (Ascii.eqb z "*"); simpl; auto. }
+  rewrite Habs. unfold finish, lfinish, absf; cbn [a_state a_cnt a_last a_hostlast a_nonNum a_partlen a_totallen].
+  rewrite Hhn. destruct (0 <? eh) eqn:Epos.
+  - apply Nat.ltb_lt in Epos. rewrite (Hhl Hh Epos).
+    cbn [last set_totallen nonNumeric partlen totallen].
+    destruct (Ascii.eqb (last s) "-"); [simpl; auto|].
+    destruct (Ascii.eqb (a_hostlast a) "."); [simpl; auto|].
+    destruct (negb (nonNumeric s)); [simpl; auto|].
+    destruct (max_label <? partlen s); [simpl; auto|].
+    destruct (max_host <? totallen s + partlen s); [simpl; auto|].
+    apply Htail; reflexivity.
+  - apply Htail; reflexivity.
+Qed.
+
+Lemma loop_refines : forall fuel url eh pre suf s hostne host prevc a,
+  length suf <= fuel ->
+  Rel url eh pre suf s hostne host prevc a ->
+  good eh (loop fuel mp mk url eh (length pre) s) /\
+  erase (loop fuel mp mk url eh (length pre) s) = lrun mp mk hostne host prevc suf a.
+Proof.
+  induction fuel as [|fuel IH]; intros url eh pre suf s hostne host prevc a Hf HR.
+  - destruct suf; [|simpl in Hf; lia].
+    simpl. assert (Hl : length url = length pre) by (rewrite (r_url _ _ _ _ _ _ _ _ _ HR), app_nil_r; reflexivity).
+    rewrite Hl, Nat.ltb_irrefl. eapply finish_refines; eauto.
+  - destruct suf as [|c r].
+    + cbn [loop lrun].
+      assert (Hl : length url = length pre) by (rewrite (r_url _ _ _ _ _ _ _ _ _ HR), app_nil_r; reflexivity).
+      rewrite Hl, Nat.ltb_irrefl. eapply finish_refines; eauto.
+    + cbn [loop lrun].
+      assert (Hl : length pre <? length url = true).
+      { rewrite (r_url _ _ _ _ _ _ _ _ _ HR), app_length. apply Nat.ltb_lt. simpl. lia. }
+      rewrite Hl.
+      pose proof (step_refines _ _ _ _ _ _ _ _ _ _ HR) as Hs.
+      destruct (lstep mp mk hostne host prevc c (hd_error r) a) as [|host' a'|a'].
+      * destruct Hs as [k ->]. simpl; auto.
+      * destruct Hs as (s' & -> & HR').
+        assert (Hlen' : S (length pre) = length (pre ++ [c])) by (rewrite app_length; simpl; lia).
+        rewrite Hlen'. apply IH; [simpl in Hf; lia|exact HR'].
+      * destruct Hs as (c2 & r' & s' & -> & -> & HR').
+        assert (Hlen' : S (S (length pre)) = length (pre ++ [c; c2])) by (rewrite app_length; simpl; lia).
+        rewrite Hlen'. apply IH; [simpl in Hf; lia|exact HR'].
+Qed.
+
+(* top level: parseRoute in terms of the list machine *)
+Lemma parseRoute_lrun url eh :
+  index_byte "/" url = Some eh ->
+  has_prefix1 "." url = false -> has_prefix1 "-" url = false ->
+  good eh (parseRoute mp mk url) /\
+  erase (parseRoute mp mk url) = lrun mp mk (0 <? eh) true "x" url a_init.
+Proof.
+  intros Heh Hd Hm. unfold parseRoute. rewrite Heh, Hd, Hm.
+  change 0 with (length (@nil ascii)) at 1 4.
+  apply loop_refines; [lia|].
+  constructor.
+  - reflexivity.
+  - exact Heh.
+  - reflexivity.
+  - reflexivity.
+  - intros H; contradiction.
+  - destruct eh; reflexivity.
+  - reflexivity.
+  - cbn; lia.
+  - intros H; discriminate.
+  - intros _. destruct url as [|x url']; [discriminate|]. simpl in *. intros E. inversion E; subst. discriminate.
+Qed.
+
+Lemma parseRoute_reject_early url :
+  (index_byte "/" url = None \/ has_prefix1 "." url = true \/ has_prefix1 "-" url = true) ->
+  exists k, parseRoute mp mk url = Reject k.
+Proof.
+  unfold parseRoute. intros [H|[H|H]].
+  - rewrite H. eauto.
+  - destruct (index_byte "/" url); [rewrite H|]; eauto.
+  - destruct (index_byte "/" url); [|eauto]. destruct (has_prefix1 "." url); [eauto|]. rewrite H. eauto.
+Qed.
+
+(* never Panic, never OutOfFuel, on any byte string under any limits *)
+Lemma parseRoute_no_crash url : parseRoute mp mk url <> Panic /\ parseRoute mp mk url <> OutOfFuel.
+Proof.
+  destruct (index_byte "/" url) as [eh|] eqn:E.
+  - destruct (has_prefix1 "." url) eqn:Hd.
+    + destruct (parseRoute_reject_early url) as [k ->]; [auto|split; discriminate].
+    + destruct (has_prefix1 "-" url) eqn:Hm.
+      * destruct (parseRoute_reject_early url) as [k ->]; [auto|split; discriminate].
+      * destruct (parseRoute_lrun url eh E Hd Hm) as [Hg _].
+        destruct (parseRoute mp mk url); simpl in Hg; try contradiction; split; discriminate.
+  - destruct (parseRoute_reject_early url) as [k ->]; [auto|split; discriminate].
+Qed.
+
 End Refine.
